@@ -60,7 +60,7 @@ def _profile(frame, event, arg):
             _steps[0] += 1
             if _steps[0] > _steps[1]:
                 raise StepBudget()
-        elif event == "return":
+        elif event == "return" and arg is not None:      # (None: the frame is being unwound by the alarm)
             try:
                 loc = frame.f_locals
                 _tail.append((loc["clause_id"], list(loc["cnf"][-1]), dict(loc["assigns"]), arg))
